@@ -465,6 +465,9 @@ func (e persistEngine) genC10(g *Gen, emit func(persistIn)) {
 				name = pick(g.Rng, names[:8])
 			}
 			text := fmt.Sprintf("t%d", j)
+			if g.Rng.Intn(3) == 0 { // identical contents in different artifacts (a per-content cache must not mix them up)
+				text = pick(g.Rng, []string{"same", "hdr", ""})
+			}
 			var a artJ
 			switch {
 			case r < 35:
@@ -564,14 +567,18 @@ func (e persistEngine) genC12(g *Gen, emit func(persistIn)) {
 			r := g.Rng.Intn(10)
 			switch {
 			case r < 7:
-				a := mkc(pick(g.Rng, names), strings.Repeat("c", g.Rng.Intn(6))+fmt.Sprint(j), g.Rng.Intn(2) == 0, []int{0644, 0600, 0755, 0444, 0640}[g.Rng.Intn(5)])
+				txt := strings.Repeat("c", g.Rng.Intn(6)) + fmt.Sprint(j)
+				if g.Rng.Intn(3) == 0 { // identical contents in different artifacts
+					txt = pick(g.Rng, []string{"same", "hdr", ""})
+				}
+				a := mkc(pick(g.Rng, names), txt, g.Rng.Intn(2) == 0, []int{0644, 0600, 0755, 0444, 0640}[g.Rng.Intn(5)])
 				if g.Rng.Intn(3) == 0 {
 					a.Tpl = true
 					a.Fails = g.Rng.Intn(40) == 0
 				}
 				in.Arts = append(in.Arts, a)
 			case r < 9:
-				in.Arts = append(in.Arts, mkArt("file", pick(g.Rng, []string{"a", "g.go"}), fmt.Sprint("g", j)))
+				in.Arts = append(in.Arts, mkArt("file", pick(g.Rng, []string{"a", "g.go"}), pick(g.Rng, []string{fmt.Sprint("g", j), "same", "hdr"})))
 			default:
 				in.Arts = append(in.Arts, mkArt("err", "", "e"))
 			}
